@@ -383,6 +383,11 @@ fn offset_spelling(rep: &Report, n: usize, seed: u64) {
         let core = i < 60;
         let mut rng = if core { Rng::new(0xC110).fork(i as u64) } else { Rng::new(seed).fork(0xC110_0000 + i as u64) };
         let (mut data, bl, wl) = rand_data(&mut rng, 2, 2);
+        // sometimes a few hundred bytes (or most of a segment) in front, so that label offsets leave the byte range
+        if rng.chance(1, 3) {
+            let n = if rng.chance(1, 4) { 40_000 + rng.below(20_000) as u16 } else { 200 + rng.below(200) as u16 };
+            data.insert(0, DataItem::Def(DataDef { label: None, word: false, kind: DK::Fill(7, n) }));
+        }
         if rng.chance(1, 3) {
             data.insert(0, DataItem::Set(rng.u16()));
         }
@@ -405,6 +410,19 @@ fn offset_spelling(rep: &Report, n: usize, seed: u64) {
                 let t = tpls[rng.below(tpls.len())];
                 let byte_pos = t.starts_with("mov cl") || t.starts_with("and byte");
                 if byte_pos && o > 255 {
+                    // out of range for the position: both spellings must meet the same fate (a program of its own)
+                    let l1 = format!("{}start:\n{}\n", dtext, t.replace("{}", &format!("{}", o)));
+                    let o1 = format!("{}start:\n{}\n", dtext, t.replace("{}", &format!("OFFSET {}", name)));
+                    rep.eval(1);
+                    rep.count("OFFSET-spelled constants out of range for their position (same fate as the literal)", 1);
+                    if let (Err(_), Ok(b)) = (assemble(&l1), assemble(&o1)) {
+                        rep.fail(Failure {
+                            sig: "spelling:offset:out-of-range-accepted".into(),
+                            what: "C11: a constant refused as a number (out of range for a byte position) is accepted when written as OFFSET of a label with that offset".into(),
+                            witness: format!("{{\"kind\": \"src\", \"source\": {}, \"literal_spelling\": {}, \"emitted_offset\": {}}}", json_str(&o1), json_str(&l1), json_str(&format!("{:?}", b.code))),
+                            core_item: if core { Some(format!("{}|oor", i)) } else { None },
+                        });
+                    }
                     continue;
                 }
                 lit.push_str(&t.replace("{}", &format!("{}", o)));
